@@ -142,6 +142,19 @@ func enumPaths(f *ssa.Function, limit int) (paths []pathInfo, ok bool) {
 }
 
 // phiOn resolves a phi along a path: the edge value of the predecessor that the path took.
+// contradictsConstGuard: some branch condition is, along this path, a boolean constant whose
+// value is the opposite of the direction taken — the path cannot be executed.
+func (p *pathInfo) contradictsConstGuard() bool {
+	for _, g := range p.Guards {
+		if k, ok := p.resolve(g.Cond).(*ssa.Const); ok && k.Value != nil && k.Value.Kind() == constant.Bool {
+			if constant.BoolVal(k.Value) != g.Taken {
+				return true
+			}
+		}
+	}
+	return false
+}
+
 func (p *pathInfo) phiOn(phi *ssa.Phi) ssa.Value {
 	b := phi.Block()
 	for i := len(p.Blocks) - 1; i > 0; i-- {
